@@ -211,6 +211,8 @@ def _post_dominated_by(cfg: CFG, key: str, ret: Node, loops: list[ast.For], f: F
 def rule_fresh(c: Ctx) -> RuleResult:
     r = RuleResult("FRESH", "the unrestored context fields are dead at rule exit: `tight` is rewritten after every dispatch and before "
                             "its only read; `parentType` is a literal of the dispatching rule at every terminator dispatch")
+    c = c.normalised("rules_block/")
+    r.notes += c.norm_notes()
     K = _block_family(c)
     ov = _ctx_override(c, K)
     tok = c.p.func("parser_block.py:ParserBlock.tokenize")
@@ -266,6 +268,19 @@ def rule_fresh(c: Ctx) -> RuleResult:
                     uses = [x for x in own_nodes(f.node) if isinstance(x, ast.Name) and x.id == nm and isinstance(x.ctx, ast.Load)]
                     if uses and all(isinstance(f.module.parents.get(x), ast.Assign) and f.module.parents.get(x).value is x
                                     and all(isinstance(t, ast.Tuple) for t in f.module.parents.get(x).targets) for x in uses):
+                        continue
+                    # ... or read back component-wise: the component that holds tight only flows back into state.tight
+                    k_t = next(i_ for i_, e_ in enumerate(par.elts) if e_ is n)
+
+                    def comp_use_ok(x: ast.Name) -> bool:
+                        p1 = f.module.parents.get(x)
+                        if not (isinstance(p1, ast.Subscript) and p1.value is x and isinstance(p1.slice, ast.Constant) and isinstance(p1.slice.value, int)):
+                            return False
+                        if p1.slice.value != k_t:
+                            return True
+                        p2 = f.module.parents.get(p1)
+                        return isinstance(p2, ast.Assign) and p2.value is p1 and all(U(t) == f"{stn}.tight" for t in p2.targets)
+                    if uses and all(comp_use_ok(x) for x in uses):
                         continue
                 reads.append(n)
         if not reads:
